@@ -85,6 +85,10 @@ def cases():
     return _CASES
 
 
+def stdin_cases():
+    return [("I", v, coe) for v in ("api-lone-surrogate", "cli-invalid-utf8", "cli-utf16") for coe in (False, True)]
+
+
 K_CALLS = ["openat", "sendfile", "write", "rename", "chmod", "fchmod", "unlink", "copy_file_range"]
 
 
@@ -111,7 +115,7 @@ def plan(tier, seed, complete=False):
         # always include every T and U case (small)
         idx = sorted(set(idx) | {i for i, c in enumerate(cs) if c[0] in "TU"})
         kidx = R(mix("C15k", seed)).sample(len(ks), 64)
-    items = [f"F:{i}" for i in idx] + [f"K:{i}" for i in kidx]
+    items = [f"F:{i}" for i in idx] + [f"K:{i}" for i in kidx] + [f"I:{i}" for i in range(len(stdin_cases()))]
     return {
         "items": items,
         "zones": {"fault cases (P,T,U)": {"universe": len(cs), "run": len(idx)}, "kill points (K)": {"universe": len(ks), "run": len(kidx)}},
@@ -366,6 +370,36 @@ def run_kill_case(ci, case, sb, R):
     return None
 
 
+def run_stdin_case(ci, case, sb, app, R):
+    """scan-stdin fed with input that cannot be decoded: error reported, system-error code, nothing left behind."""
+    _, variant, coe = case
+    sb.clear_files()
+    pre = ["--log-level", "CRITICAL"] + (["--continue-on-error"] if coe else [])
+    if variant == "api-lone-surrogate":
+        o = app.invoke(pre + ["scan-stdin"], string="# title\n\ntext \udc80 more\n")
+        rc, err = o.rc, o.errtext
+    else:
+        data = b"\xff\xfe# t\n\xe9\x80\n" if variant == "cli-invalid-utf8" else "# title\n".encode("utf-16")
+        rc, out, err = app.cli(pre + ["scan-stdin"], data, cwd=sb.cwd, extra_env={"TMPDIR": sb.tmp})
+    R.count("invocations")
+    R.count("faults_injected")
+    R.count("faults_reached")
+    R.count("files_judged")
+    R.distinct.add(PL.mix("C15I", variant, coe) & 0xFFFFFFFFFFFF)
+    v = set()
+    tag = f"I:{variant}:{'coe' if coe else 'stop'}"
+    if rc != 1:
+        v.add(f"{tag}:exit-code-{rc}-not-system-error")
+    if not err.strip():
+        v.add(f"{tag}:no-error-reported")
+    left = sb.tmp_listing()
+    if left:
+        v.add(f"{tag}:temp-files-left")
+    if v:
+        return [";".join(sorted(v)), {"case": f"I:{ci}", "descr": list(case), "rc": rc, "stderr": err[:300], "tmp_left": left[:5]}]
+    return None
+
+
 def run_items(items, job):
     from vf import app, reclog
 
@@ -385,6 +419,8 @@ def run_items(items, job):
         R.evals += 1
         if cls == "F":
             res = run_fault_case(ci, cases()[ci], sb, app, reclog, R)
+        elif cls == "I":
+            res = run_stdin_case(ci, stdin_cases()[ci], sb, app, R)
         else:
             res = run_kill_case(ci, kill_cases()[ci], sb, R)
         if res:
